@@ -11,13 +11,15 @@ C06 — executable model of hybrid merging, selection, sorting and paging.  Core
 
 Hybrid scores live in an arbitrary type `S` with an arbitrary `add` (Go: float32 `+=`); sorting is
 any function that returns a sorted permutation (Go's `slices.SortFunc` is unstable; the
-`slices.SortStableFunc` by hybrid score in `SearchPoints` is additionally the identity on a list
-that is already in order).
+`slices.SortStableFunc` by hybrid score in the single-sub-query shortcut of `searchParallel` is
+additionally the identity on a list that is already in order).
 
-The model follows the repaired tree (repository commits `fix: order ranked results by hybrid score in
-Shard.SearchPoints …`, `fix: a select path that cannot be followed on one point …`, `fix: CompareAny
-orders numbers of different kinds by value`): the three hypotheses the earlier model had to carry
-(two or more sub-queries, no select path through a scalar, one reflect.Kind per sort key) are gone.
+The model follows the repaired tree (repository commits `fix: a composite query with a single sub-query
+returns its results by hybrid score like merged ones`, `fix: a select path that does not fit a point's
+structure is skipped, not a 500`, `fix: CompareAny orders numbers of different kinds by value`): the
+three hypotheses the earlier model had to carry (two or more sub-queries, no select path through a
+scalar, one reflect.Kind per sort key) are gone.  The hybrid-score order is a property of COMPOSITE
+queries (`_and` / `_or` at the root); a plain ranking query keeps the order of its index (C03–C05).
 -/
 import SemaModel.Base.Bytes
 import SemaModel.Base.Float
@@ -58,13 +60,14 @@ def mergeStep {S : Type} (add : S → S → S) (acc : List (Res S)) (r : Res S) 
     acc.map (fun x => if x.id == r.id then { x with hybrid := add x.hybrid r.hybrid } else x)
   else acc ++ [r]
 
-/-- `searchParallel`: `len(queries) == 1` is passed through untouched; otherwise union /
-intersection of the sets, de-duplication in sub-query order (in the `_and` case results outside the
-intersection are dropped), then `slices.SortFunc` by hybrid score, descending. -/
-def searchParallel {S : Type} (add : S → S → S) (sorter : List (Res S) → List (Res S))
+/-- `searchParallel`: for `len(queries) == 1` the shortcut hands the sub-result on after a
+`slices.SortStableFunc` by hybrid score (`stable`); otherwise union / intersection of the sets,
+de-duplication in sub-query order (in the `_and` case results outside the intersection are dropped),
+then `slices.SortFunc` by hybrid score, descending (`sorter`, unstable). -/
+def searchParallel {S : Type} (add : S → S → S) (sorter stable : List (Res S) → List (Res S))
     (isOr : Bool) (subs : List (SubResult S)) : SubResult S :=
   match subs with
-  | [one] => one
+  | [one] => ⟨one.set, stable one.res⟩
   | _ =>
     let finalSet := if isOr then unionAll (subs.map (·.set)) else interAll (subs.map (·.set))
     let all := (subs.map (·.res)).flatten
@@ -155,9 +158,9 @@ def setNested : Doc → List String → Val → Except Unit Doc
 def overlay (acc d : Doc) : Doc := d.foldl (fun a e => put a e.1 e.2) acc
 
 /-- the select loop over one point; a path is a list of segments (`strings.Split(p, ".")`), `["*"]`
-is the star.  When `Query` fails the stored bytes are re-read with `dec.Skip()`: a stored document is
-well-formed msgpack (it is a `Val`), so the skip succeeds and the loop `continue`s — the point simply
-lacks the path. -/
+is the star.  A path that does not fit the structure of this point — `Query` fails, or the nested
+rebuild meets a non-map placed by an earlier select — is skipped (`continue` / `continue selectLoop`):
+the point simply lacks the path. -/
 def selectDoc (d : Doc) : List (List String) → Doc → Except Unit Doc
   | [], acc => .ok acc
   | p :: rest, acc =>
@@ -166,7 +169,7 @@ def selectDoc (d : Doc) : List (List String) → Doc → Except Unit Doc
       | .error _ => selectDoc d rest acc
       | .ok none => selectDoc d rest acc
       | .ok (some v) => match setNested acc p v with
-        | .error e => .error e
+        | .error _ => selectDoc d rest acc
         | .ok acc' => selectDoc d rest acc'
 
 /-! ### CompareAny -/
@@ -367,20 +370,19 @@ inductive Outcome (S : Type) where
   | selectError
   | slicePanic
 
-/-- everything `Shard.SearchPoints` does before the offset / limit slice: `rankSorter` is the
-`slices.SortStableFunc` by hybrid score, highest first, applied to what the index search returned;
-back-fill; select; `sorter` is `utils.SortSearchResults` -/
-def fullRows {S : Type} (docOf : Id → Doc) (rankSorter : List (Res S) → List (Res S))
+/-- everything `Shard.SearchPoints` does before the offset / limit slice: back-fill of what the index
+search returned (in the order it returned it); select; `sorter` is `utils.SortSearchResults` -/
+def fullRows {S : Type} (docOf : Id → Doc)
     (sorter : List (Row S) → List (Row S)) (r : SubResult S) (rq : Request) : Except Unit (List (Row S)) :=
   match mapExcept (fun (e : Entry S) => (shape rq (docOf e.id)).map (fun d => (⟨e.id, e.hybrid, d⟩ : Row S)))
-      (backfill ⟨r.set, rankSorter r.res⟩) with
+      (backfill r) with
   | .error e => .error e
   | .ok rows => .ok (if rq.sort.isEmpty then rows else sorter rows)
 
-def searchPoints {S : Type} (docOf : Id → Doc) (rankSorter : List (Res S) → List (Res S))
+def searchPoints {S : Type} (docOf : Id → Doc)
     (sorter : List (Row S) → List (Row S)) (repaired : Bool)
     (r : SubResult S) (rq : Request) : Outcome S :=
-  match fullRows docOf rankSorter sorter r rq with
+  match fullRows docOf sorter r rq with
   | .error _ => .selectError
   | .ok rows =>
     match (if repaired then pageRepaired rows rq.off rq.lim else pagePinned rows rq.off rq.lim) with
@@ -413,18 +415,23 @@ inductive QForest (S : Type) where
   | cons (t : QTree S) (ts : QForest S)
 end
 
+/-- a composite query (`_and` / `_or`) at the root, as opposed to a plain ranking / filter query -/
+def QTree.isComposite {S : Type} : QTree S → Bool
+  | .leaf _ => false
+  | .node _ _ => true
+
 def QForest.isNil {S : Type} : QForest S → Bool
   | .nil => true
   | .cons _ _ => false
 
 mutual
 /-- `indexManager.Search` on a composite query: every sub-query is searched, then `searchParallel` -/
-def evalTree {S : Type} (add : S → S → S) (sorter : List (Res S) → List (Res S)) : QTree S → SubResult S
+def evalTree {S : Type} (add : S → S → S) (sorter stable : List (Res S) → List (Res S)) : QTree S → SubResult S
   | .leaf r => r
-  | .node isOr subs => searchParallel add sorter isOr (evalForest add sorter subs)
-def evalForest {S : Type} (add : S → S → S) (sorter : List (Res S) → List (Res S)) : QForest S → List (SubResult S)
+  | .node isOr subs => searchParallel add sorter stable isOr (evalForest add sorter stable subs)
+def evalForest {S : Type} (add : S → S → S) (sorter stable : List (Res S) → List (Res S)) : QForest S → List (SubResult S)
   | .nil => []
-  | .cons t ts => evalTree add sorter t :: evalForest add sorter ts
+  | .cons t ts => evalTree add sorter stable t :: evalForest add sorter stable ts
 end
 
 mutual
